@@ -17,6 +17,7 @@
 
 import abc
 import logging
+import threading
 import uuid
 from typing import Dict, List, TYPE_CHECKING
 
@@ -57,6 +58,7 @@ class TracepointConfigService:
         self._last_update = 0
         self._task_handler = None
         self._listeners: List[ConfigUpdateListener] = []
+        self._update_lock = threading.Lock()
 
     def update_no_change(self, ts):
         """
@@ -113,12 +115,16 @@ class TracepointConfigService:
         :param old_config: the old config
         :param new_config: the new config
         """
-        listeners_copy = self._listeners.copy()
-        for listeners in listeners_copy:
-            try:
-                listeners.config_change(ts, old_hash, current_hash, old_config, new_config + self._custom)
-            except Exception:
-                logging.exception("Error updating listener %s", listeners)
+        # updates run as tasks on more than one worker, so they can finish in any order: whichever runs last has to
+        # leave the listeners with the latest config, not with the (older) one it was submitted with
+        with self._update_lock:
+            new_config = self._tracepoint_config
+            listeners_copy = self._listeners.copy()
+            for listeners in listeners_copy:
+                try:
+                    listeners.config_change(ts, old_hash, self._current_hash, old_config, new_config + self._custom)
+                except Exception:
+                    logging.exception("Error updating listener %s", listeners)
 
     def add_listener(self, listener: ConfigUpdateListener):
         """
